@@ -326,6 +326,7 @@ package setec
 //@ callers [C11,C19 poll-only-in-singleflight] (*client/setec.Store).poll only-from (*client/setec.Store).Refresh$1
 //@ callers [C11,C19 apply-only-in-singleflight] (*client/setec.Store).applyUpdates only-from (*client/setec.Store).Refresh$1
 //@ callers [C11 refresh-closure-only-via-dochan] (*client/setec.Store).Refresh$1 only-from (*client/setec.Store).Refresh (value)
+//@ nocall [C11,C16 coalescing-never-abandoned] in client/setec: (*golang.org/x/sync/singleflight.Group).Forget
 //@ callers [C16 lookup-closure-only-via-do] (*client/setec.Store).lookupSecretInternal$1 only-from (*client/setec.Store).lookupSecretInternal (value)
 // A-interval: a poll interval of at least 5ns (below that 2*interval/10 is 0 and rand.Intn panics)
 //@ func (*Store).run(s, ctx, interval, done)
@@ -351,6 +352,7 @@ package setec
 //@   ensures [C15 watcher.registered] err == nil ==> (w.ready != nil && fresh(w.ready) && isSlot(w.ready) && chcap(w.ready) == 1 && chlen(w.ready) == 0 && has(s.active.w, name) && has(s.active.f, name) && w.Secret != nil &&
 //@        len(s.active.w[name]) == old(len(s.active.w[name])) + 1 && s.active.w[name][len(s.active.w[name]) - 1].ready == w.ready)
 //@   ensures [C12 watcher.unlocked] !s.active.Mutex
+//@   ensures [C15 watcher.consumes-no-signal] slotRecvs == old(slotRecvs)
 //@   ensures [C12 watcher.inv] storeInv(s)
 
 // ---- file client construction ---------------------------------------------------------------
@@ -399,10 +401,13 @@ package setec
 //@   ensures [C15 updater.rebuild-once-on-current-bytes] old(chlen(u.w.ready)) == 1 ==> (builderCalls == old(builderCalls) + 1 && handleCalls == old(handleCalls) + 1 && lastBuiltFrom == lastHandleValue && chlen(u.w.ready) == 0)
 //@   ensures [C15 updater.keep-on-error] (old(chlen(u.w.ready)) == 1 && lastBuilderErr != nil) ==> (u.value == old(u.value) && v == old(u.value) && u.err == lastBuilderErr && closes == old(closes))
 //@   ensures [C15 updater.replace-on-success] (old(chlen(u.w.ready)) == 1 && lastBuilderErr == nil) ==> (u.err == nil && v == u.value && closes <= old(closes) + 1)
+//@   ensures [C15 updater.consumes-exactly-the-pending-signal] slotRecvs == old(slotRecvs) + old(chlen(u.w.ready))
 //@   ensures [C15 updater.unlocked] !u.mu
 //@ func NewUpdater(ctx, s, name, newValue) (u, err)
 //@   requires storeInv(s) && !s.active.Mutex && ctx != nil && s.client != nil && newValue != nil
-//@   ensures [C15 newupdater.ready-for-get] err == nil ==> (u != nil && !u.mu && u.newValue != nil && u.logf != nil && u.w.Secret != nil && u.w.ready != nil && isSlot(u.w.ready) && chcap(u.w.ready) == 1 && chlen(u.w.ready) == 0)
+//@   interference at newValue writers (*client/setec.Store).applyUpdates assume storeInv(s) && !s.active.Mutex && chlen(w.ready) >= old(chlen(w.ready)) && chlen(w.ready) <= 1 && net == old(net)
+//@   ensures [C15 newupdater.ready-for-get] err == nil ==> (u != nil && !u.mu && u.newValue != nil && u.logf != nil && u.w.Secret != nil && u.w.ready != nil && isSlot(u.w.ready) && chcap(u.w.ready) == 1 && chlen(u.w.ready) >= 0 && chlen(u.w.ready) <= 1)
 //@   ensures [C15 newupdater.initial-value-built-once] err == nil ==> (builderCalls == old(builderCalls) + 1 && lastBuilderErr == nil && lastBuiltFrom == lastHandleValue)
+//@   ensures [C15 newupdater.consumes-no-signal] slotRecvs == old(slotRecvs)
 //@   ensures [C16 newupdater.gate] (!old(has(s.active.m, name)) && !s.allowLookup) ==> (err != nil && net == old(net) && builderCalls == old(builderCalls))
 //@   ensures [C12 newupdater.unlocked] !s.active.Mutex && storeInv(s)
